@@ -19,7 +19,13 @@ import (
 	"time"
 )
 
-const repo = "/repo"
+// repo is the tree under test: /repo, or $VERIF_REPO (background runs on a snapshot).
+var repo = func() string {
+	if r := os.Getenv("VERIF_REPO"); r != "" {
+		return r
+	}
+	return "/repo"
+}()
 
 // verif is the framework's root: the directory above the one this binary lives in.
 var verif = func() string {
@@ -211,7 +217,7 @@ func main() {
 	rwOK := true
 	if needRW {
 		if _, err := os.Stat(ovRW); err != nil {
-			rc, to := run(verif, goEnv(), 10*time.Minute, logf, logf, filepath.Join(verif, "bin", "vsrewrite"), "-rt", filepath.Join(verif, "rt"), "-harness", filepath.Join(verif, "harness"), "-out", filepath.Join(work, "rw"))
+			rc, to := run(verif, goEnv(), 10*time.Minute, logf, logf, filepath.Join(verif, "bin", "vsrewrite"), "-repo", repo, "-rt", filepath.Join(verif, "rt"), "-harness", filepath.Join(verif, "harness"), "-out", filepath.Join(work, "rw"))
 			if rc != 0 || to {
 				rwOK = false
 				os.Remove(ovRW)
@@ -220,7 +226,7 @@ func main() {
 		}
 	}
 	if _, err := os.Stat(ovPlain); err != nil {
-		rc, _ := run(verif, goEnv(), 10*time.Minute, logf, logf, filepath.Join(verif, "bin", "vsrewrite"), "-rt", filepath.Join(verif, "rt"), "-harness", filepath.Join(verif, "harness"), "-norewrite", "-out", filepath.Join(work, "plain"))
+		rc, _ := run(verif, goEnv(), 10*time.Minute, logf, logf, filepath.Join(verif, "bin", "vsrewrite"), "-repo", repo, "-rt", filepath.Join(verif, "rt"), "-harness", filepath.Join(verif, "harness"), "-norewrite", "-out", filepath.Join(work, "plain"))
 		if rc != 0 {
 			notes = append(notes, "plain overlay generation failed")
 		}
